@@ -2,7 +2,7 @@
   Line protocol: parse one (operation line, result line) pair of the harness transcript into a `Call`
   (oracle arguments filled from the observation) and the observed `Resp`; compare with the model.
 -/
-import Shm.Model.Step
+import Shm.Model.Machine
 namespace Shm
 
 def words (line : String) : List String :=
@@ -66,9 +66,11 @@ def parseGot (w : String) : Option (Nat × Option Bytes) :=
   | _ => none
 
 structure Parsed where
-  call : Call
+  call : AnyCall
   obs : Resp
   deriving Repr
+
+instance : Coe Call AnyCall := ⟨AnyCall.core⟩
 
 def natsOf (ws : List String) : Option (List Nat) := ws.mapM parseNat?
 
@@ -91,8 +93,138 @@ def parseMinted (ws : List String) : Option (List (Nat × Bytes)) :=
         pure (hv, lb)
     | _ => none
 
+/-- mechanism token `<mechhex>[:raw hex | kind(args)]` -/
+def parseMechTok (w : String) : Option (Nat × MParam) :=
+  match w.splitOn ":" with
+  | [m] => do pure (← parseHexNat? m, {})
+  | m :: rest => do
+      let mech ← parseHexNat? m
+      let p := ":".intercalate rest
+      match p.splitOn "(" with
+      | [raw] => do let b ← parseHex raw; pure (mech, { present := true, len := b.length })
+      | [kind, args] =>
+        let as := ((args.dropEnd 1).toString.splitOn ",")
+        let hexLen (x : String) : Nat := ((parseHex x).getD []).length
+        let num (x : String) : Nat := (parseNat? x).getD 0
+        if kind == "gcm" then pure (mech, { present := true, kind := kind, len := hexLen (as.getD 0 "."), nums := [hexLen (as.getD 0 "."), hexLen (as.getD 1 "."), num (as.getD 2 "0")] })
+        else if kind == "ctr" then
+          -- counter value: the low `bits` bits of the 16-byte block (big endian)
+          let cb := ((parseHex (as.getD 1 ".")).getD []) ++ List.replicate 16 (0 : UInt8)
+          let v := (cb.take 16).foldl (fun acc b => acc * 256 + b.toNat) 0
+          pure (mech, { present := true, kind := kind, nums := [num (as.getD 0 "0"), v] })
+        else pure (mech, { present := true, kind := kind, nums := as.map num })
+      | _ => none
+  | _ => none
+
+/-- output buffer argument: `n` = NULL pointer -/
+def parseCap (w : String) : Option (Option Nat) := if w == "n" then some none else (parseNat? w).map some
+
+/-- data argument: `-` = NULL pointer; only the length matters to the model -/
+def parseInLen (w : String) : Option (Option Nat) := if w == "-" then some none else (parseHex w).map (fun b => some b.length)
+
+/-- ` <len> <data|-|W…> [!OVERRUN]` of an output-producing call -/
+def parseOut (rv : Nat) (ws : List String) : Option OutObs :=
+  match ws with
+  | len :: data :: rest => do
+      let l ← parseNat? len
+      let d ← if data == "-" then some none
+               else if data.startsWith "W" then some (some [0xBA, 0xD0])
+               else (parseHex data).map some
+      if rest.contains "!OVERRUN" then pure { rv := rv, len := l, data := some [0xBA, 0xD1] } else pure { rv := rv, len := l, data := d }
+  | _ => none
+
+/-- expected shape of the observation of an output-producing call: on OK with a buffer: length + bytes; on OK with NULL or
+    BUFFER_TOO_SMALL: length only; otherwise nothing -/
+def outResp (o : OutObs) (cap : Option Nat) : Resp :=
+  if o.rv == 0 && cap.isSome then { rv := 0, nums := [o.len], vals := [o.data] }
+  else if o.rv == 0 || o.rv == 0x150 then { rv := o.rv, nums := [o.len], vals := if o.data.isSome then [o.data] else [] }
+  else { rv := o.rv, vals := if o.data.isSome then [o.data] else [] }
+
+def initKindOf (op : String) : Option InitKind :=
+  if op == "encinit" then some .encrypt else if op == "decinit" then some .decrypt
+  else if op == "siginit" then some .sign else if op == "verinit" then some .verify else none
+
+def splitAt (ws : List String) (sep : String) : List String × List String :=
+  (ws.takeWhile (· != sep), (ws.dropWhile (· != sep)).drop 1)
+
+def parseOpPair (op res : List String) : Option Parsed :=
+  match op, res with
+  | ["cfgmechs", cfg], _ => some ⟨.op (.cfgMechs cfg), { rv := 0 }⟩
+  | ["mechlist", _], rv :: slot :: _n :: ms => do
+      let l ← ms.mapM parseHexNat?
+      pure ⟨.op (.mechList (← parseNat? slot)), { rv := ← parseNat? rv, nums := sortNat l }⟩
+  | ["mechlist", _], [rv, slot] => do pure ⟨.op (.mechList (← parseNat? slot)), { rv := ← parseNat? rv }⟩
+  | [opn, _, m, _], [rv, h, k] => do
+      let kind ← initKindOf opn
+      let (mech, p) ← parseMechTok m
+      let r ← parseNat? rv
+      pure ⟨.op (.opInit kind (← parseNat? h) mech p (← parseNat? k) r), { rv := r }⟩
+  | ["diginit", _, m], [rv, h] => do
+      let (mech, _) ← parseMechTok m
+      let r ← parseNat? rv
+      pure ⟨.op (.digestInit (← parseNat? h) mech r), { rv := r }⟩
+  | ["digkey", _, _], [rv, h, k] => do
+      let r ← parseNat? rv
+      pure ⟨.op (.digestKey (← parseNat? h) (← parseNat? k) r), { rv := r }⟩
+  | [opn, _, d, c], rv :: h :: out =>
+      if ["enc", "dec", "encupd", "decupd", "sign", "digest"].contains opn then do
+        let r ← parseNat? rv
+        let hv ← parseNat? h
+        let i ← parseInLen d
+        let cap ← parseCap c
+        let o ← parseOut r out
+        let call : OpCall :=
+          if opn == "enc" then .crypt true hv i cap o else if opn == "dec" then .crypt false hv i cap o
+          else if opn == "encupd" then .cryptUpdate true hv i cap o else if opn == "decupd" then .cryptUpdate false hv i cap o
+          else if opn == "sign" then .sign hv i cap o else .digest hv i cap o
+        pure ⟨.op call, outResp o cap⟩
+      else if opn == "verify" then do
+        match out with
+        | [] => do
+          let r ← parseNat? rv
+          pure ⟨.op (.verify (← parseNat? h) (← parseInLen d) (← parseInLen c) r), { rv := r }⟩
+        | _ => none
+      else none
+  | [opn, _, c], rv :: h :: out =>
+      if ["encfinal", "decfinal", "sigfinal", "digfinal"].contains opn then do
+        let r ← parseNat? rv
+        let hv ← parseNat? h
+        let cap ← parseCap c
+        let o ← parseOut r out
+        let call : OpCall :=
+          if opn == "encfinal" then .cryptFinal true hv cap o else if opn == "decfinal" then .cryptFinal false hv cap o
+          else if opn == "sigfinal" then .signFinal hv cap o else .digestFinal hv cap o
+        pure ⟨.op call, outResp o cap⟩
+      else if ["sigupd", "verupd", "digupd"].contains opn then do
+        match out with
+        | [] => do
+          let r ← parseNat? rv
+          let kind : OpKind := if opn == "sigupd" then .sign else if opn == "verupd" then .verify else .digest
+          pure ⟨.op (.update kind (← parseNat? h) (← parseInLen c) r), { rv := r }⟩
+        | _ => none
+      else if opn == "verfinal" then do
+        match out with
+        | [] => do
+          let r ← parseNat? rv
+          pure ⟨.op (.verifyFinal (← parseNat? h) (← parseInLen c) r), { rv := r }⟩
+        | _ => none
+      else none
+  | "genkey" :: _ :: m :: tpl, [rv, h, hk] => do
+      let (mech, _) ← parseMechTok m
+      let r ← parseNat? rv
+      let hv ← parseNat? hk
+      pure ⟨.op (.genKey (← parseNat? h) mech (← parseTpl tpl) r), { rv := r, nums := if r == 0 then [hv] else [] }⟩
+  | "genpair" :: _ :: m :: tpls, [rv, h, h1, h2] => do
+      let (mech, _) ← parseMechTok m
+      let r ← parseNat? rv
+      let (a, b) := splitAt tpls "/"
+      let v1 ← parseNat? h1
+      let v2 ← parseNat? h2
+      pure ⟨.op (.genPair (← parseNat? h) mech (← parseTpl a) (← parseTpl b) r), { rv := r, nums := if r == 0 then [v1, v2] else [] }⟩
+  | _, _ => none
+
 /-- `op` = tokens of the operation line, `res` = tokens of the result line after `=` -/
-def parsePair (op res : List String) : Option Parsed :=
+def parseCorePair (op res : List String) : Option (Call × Resp) :=
   match op, res with
   | ["init"], [rv] => do pure ⟨.initLib, { rv := ← parseNat? rv }⟩
   | ["fini"], [rv] => do pure ⟨.finiLib, { rv := ← parseNat? rv }⟩
@@ -156,12 +288,16 @@ def parsePair (op res : List String) : Option Parsed :=
 
 /-- The engine oracle of `create` is only consulted after the modelled checks; everything else is compared
     exactly.  Returns `none` when model and observation agree, else a description. -/
-def compareResp (c : Call) (model obs : Resp) : Option String :=
+def parsePair (op res : List String) : Option Parsed :=
+  match parseCorePair op res with
+  | some (c, r) => some ⟨.core c, r⟩
+  | none => parseOpPair op res
+
+def compareResp (model obs : Resp) : Option String :=
   if model.rv != obs.rv then some s!"rv: model 0x{String.ofList (Nat.toDigits 16 model.rv)} impl 0x{String.ofList (Nat.toDigits 16 obs.rv)}"
   else if model.nums != obs.nums then some s!"values: model {model.nums} impl {obs.nums}"
   else if model.vals != obs.vals then
-    match c with
-    | _ => some s!"bytes: model {model.vals.map (·.map toHex)} impl {obs.vals.map (·.map toHex)}"
+    some s!"bytes: model {model.vals.map (·.map toHex)} impl {obs.vals.map (·.map toHex)}"
   else none
 
 /-- category of a disagreement: `rvclass` (one side OK, the other not), `rvcode` (both fail, different code),
